@@ -21,8 +21,8 @@ RULE = ('Complete enumeration of (supported protocol version, state, '
         'threads build the tables of two different versions at the same '
         'time (7 version pairs/tables), every source line of the packet '
         'table modules, minecraft/utility and ConnectionContext a '
-        'scheduling point, all schedules with <= 1 '
-        '(thorough 2) preemptions: each thread gets the table it gets '
+        'scheduling point, all schedules with <= 1 preemption (login '
+        'tables: 2, thorough 3; thorough: 14 cases): each thread gets the table it gets '
         'alone, also afterwards.')
 ASSUMPTIONS = ['id tables are pure functions of the protocol version '
                '(checked: each table is built three times and compared)']
@@ -146,6 +146,15 @@ RACE_CASES = [(47, 757, 'clientbound', 'play'),
               (340, 757, 'clientbound', 'login')]
 
 
+RACE_CASES_THOROUGH = [(107, 210, 'clientbound', 'play'),
+                       (404, 477, 'clientbound', 'play'),
+                       (PRE | 1, 751, 'clientbound', 'play'),
+                       (340, 393, 'serverbound', 'play'),
+                       (751, 755, 'serverbound', 'play'),
+                       (47, 391, 'serverbound', 'login'),
+                       (385, 757, 'clientbound', 'login')]
+
+
 def table_of(version, direction, state):
     from minecraft.networking.connection import ConnectionContext
     context = ConnectionContext(protocol_version=version)
@@ -201,19 +210,26 @@ def race_factory(params):
 
 def run_races(ctx, ex):
     mc = use_repo()
-    bound = 2 if ctx.thorough else 1
+    # (a play table is ~600 line points per thread: <= 2 preemptions would
+    # be ~10^5 schedules per case; the small login tables get bound 2/3)
+    cases = list(RACE_CASES)
+    if ctx.thorough:
+        cases += RACE_CASES_THOROUGH
+    bound = 1
     execs = 0
-    for a, b, direction, state in RACE_CASES:
+    for a, b, direction, state in cases:
         if a not in mc.SUPPORTED_PROTOCOL_VERSIONS or \
                 b not in mc.SUPPORTED_PROTOCOL_VERSIONS:
             continue
+        b_case = (3 if ctx.thorough else 2) if state == 'login' else 1
+        bound = max(bound, b_case)
         res = ex.explore(ctx, race_factory,
                          {'a': a, 'b': b, 'direction': direction,
-                          'state': state}, bound, label='race ')
+                          'state': state}, b_case, label='race ')
         execs += res.execs
         ctx.cls('two threads building tables concurrently')
     ctx.extra['concurrent'] = {
-        'cases': [list(c) for c in RACE_CASES], 'preemption_bound': bound,
+        'cases': [list(c) for c in cases], 'preemption_bound_max': bound,
         'schedules_executed': execs,
         'points': 'every source line of ' + ', '.join(RACE_MODULES)}
 
